@@ -19,7 +19,9 @@ use std::collections::BTreeMap;
 use std::path::Path;
 
 fn usage() -> i32 {
-    eprintln!("usage: llsim check <Cxx> [--tier quick|thorough] | replay <file> | dev <props> <family> <runs> [seed] | gen <family> <seed> <index> <prop>");
+    eprintln!(
+        "usage: llsim check <Cxx> [--tier quick|thorough] | replay <file> | dev <props> <family> <runs> [seed] | gen <family> <seed> <index> <prop>"
+    );
     2
 }
 
@@ -101,7 +103,10 @@ fn digest(args: &[String]) -> i32 {
     for i in indices {
         let rs = driver::run_seed(seed, family, i);
         let (mut c, g) = if evolving {
-            (case::Case::Conc(evolve.next(i, rs, &case::gen_opts(props))), None)
+            (
+                case::Case::Conc(evolve.next(i, rs, &case::gen_opts(props))),
+                None,
+            )
         } else {
             case::Case::generate(family, rs, i, props)
         };
@@ -146,12 +151,19 @@ fn dev(args: &[String]) -> i32 {
     let mut nontrivial = 0;
     let dump = std::env::var("LLSIM_DUMP").ok();
     let evolving = family == "KE";
-    let indices: Vec<u64> = if evolving { conc::ke_indices(n, 0, 1) } else { (0..n).collect() };
+    let indices: Vec<u64> = if evolving {
+        conc::ke_indices(n, 0, 1)
+    } else {
+        (0..n).collect()
+    };
     let mut evolve = conc::Evolve::default();
     for i in indices {
         let rs = driver::run_seed(seed, family, i);
         let (mut c, g) = if evolving {
-            (case::Case::Conc(evolve.next(i, rs, &case::gen_opts(props))), None)
+            (
+                case::Case::Conc(evolve.next(i, rs, &case::gen_opts(props))),
+                None,
+            )
         } else {
             case::Case::generate(family, rs, i, props)
         };
@@ -174,7 +186,11 @@ fn dev(args: &[String]) -> i32 {
                     .set("signature", v.sig.clone())
                     .set("detail", v.detail.clone())
                     .set("case", c.to_json());
-                std::fs::write(format!("{d}/{}.json", key.replace([':', '/'], "_")), rec.to_pretty()).unwrap();
+                std::fs::write(
+                    format!("{d}/{}.json", key.replace([':', '/'], "_")),
+                    rec.to_pretty(),
+                )
+                .unwrap();
             }
             let e = viol.entry(key).or_insert((0, v.detail.clone(), i));
             e.0 += 1;
